@@ -9,6 +9,7 @@ import (
 	"fmt"
 	"go/token"
 	"go/types"
+	"sort"
 	"strings"
 
 	"golang.org/x/tools/go/ssa"
@@ -25,7 +26,7 @@ func calleeKeyOf(c *ssa.CallCommon) string {
 }
 
 func staticChecks(w *World, id string) []*FuncResult {
-	var out []*FuncResult
+	out := atomicChecks(w, id)
 	for _, k := range sortedKeys(w.specs.Funcs) {
 		sp := w.specs.Funcs[k]
 		if sp.Ext || !hasProp(sp.Props, id) || len(sp.Borrows) == 0 {
@@ -221,4 +222,193 @@ func isBorrowable(t types.Type) bool {
 		return true
 	}
 	return false
+}
+
+// ---- atomic_only: fields that may only be touched through sync/atomic ----
+
+func atomicChecks(w *World, id string) []*FuncResult {
+	var out []*FuncResult
+	for _, k := range sortedKeys(w.specs.Types) {
+		ts := w.specs.Types[k]
+		if !hasProp(ts.Props, id) || len(ts.Atomic) == 0 {
+			continue
+		}
+		i := strings.LastIndex(k, ".")
+		pkg, ok := w.spkgs[k[:i]]
+		if !ok {
+			continue
+		}
+		tn := pkg.Type(k[i+1:])
+		if tn == nil {
+			continue
+		}
+		su, ok := tn.Type().Underlying().(*types.Struct)
+		if !ok {
+			continue
+		}
+		atomicField := map[int]bool{}
+		for _, f := range ts.Atomic {
+			if f == "*" {
+				for j := 0; j < su.NumFields(); j++ {
+					atomicField[j] = true
+				}
+				continue
+			}
+			j, _ := findField(su, f)
+			if j >= 0 {
+				atomicField[j] = true
+			}
+		}
+		res := &FuncResult{Key: k + " (atomic_only)", Fn: "type " + k[strings.LastIndex(k, "/")+1:], Mode: "cfg"}
+		vc := NewVC(Mode{})
+		nOK := 0
+		// every function of every loaded bluge package
+		for _, sp := range w.spkgs {
+			if !inMod(sp.Pkg.Path(), modulePath) {
+				continue
+			}
+			for _, fn := range allFuncs(w, sp) {
+				if w.fset != nil && strings.HasSuffix(w.fset.Position(fn.Pos()).Filename, "_test.go") {
+					continue
+				}
+				for _, b := range fn.Blocks {
+					for _, in := range b.Instrs {
+						// whole-struct load/store of a value of this type through a pointer
+						if u, ok := in.(*ssa.UnOp); ok && u.Op == token.MUL && types.Identical(u.Type(), tn.Type()) {
+							if _, isAlloc := u.X.(*ssa.Alloc); !isAlloc {
+								res.Obls = append(res.Obls, &Obligation{Name: fmt.Sprintf("%s#atomic_only:%s copied as a whole (non-atomic read of every field): %s", shortFn(fn), tn.Name(), w.exprTextAt(in)),
+									Fn: res.Fn, Kind: "static", VC: vc, Props: ts.Props, Solver: "cfg", Status: "refuted", Model: "non-atomic access to fields that are updated with sync/atomic elsewhere"})
+							}
+						}
+						fa, ok := in.(*ssa.FieldAddr)
+						if !ok || !atomicField[fa.Field] {
+							continue
+						}
+						pt, ok := fa.X.Type().Underlying().(*types.Pointer)
+						if !ok || !types.Identical(pt.Elem(), tn.Type()) {
+							continue
+						}
+						// a local value (copy) or the object under construction is exempt
+						if _, ok := fa.X.(*ssa.Alloc); ok {
+							continue
+						}
+						if constructsBeforeSpawn(fn, in, tn.Type()) {
+							continue
+						}
+						good := true
+						for _, r := range *fa.Referrers() {
+							c, isCall := r.(ssa.CallInstruction)
+							if isCall {
+								if f := c.Common().StaticCallee(); f != nil && f.Pkg != nil && f.Pkg.Pkg.Path() == "sync/atomic" {
+									continue
+								}
+							}
+							if _, isDbg := r.(*ssa.DebugRef); isDbg {
+								continue
+							}
+							good = false
+						}
+						if good {
+							nOK++
+							continue
+						}
+						res.Obls = append(res.Obls, &Obligation{Name: fmt.Sprintf("%s#atomic_only:%s.%s accessed without sync/atomic: %s", shortFn(fn), tn.Name(), su.Field(fa.Field).Name(), w.exprTextAt(in)),
+							Fn: res.Fn, Kind: "static", VC: vc, Props: ts.Props, Solver: "cfg", Status: "refuted", Model: "plain access to an atomic_only field"})
+					}
+				}
+			}
+		}
+		occ := map[string]int{}
+		for _, o := range res.Obls {
+			occ[o.Name]++
+			if occ[o.Name] > 1 {
+				o.Name = fmt.Sprintf("%s@%d", o.Name, occ[o.Name])
+			}
+		}
+		res.Obls = append(res.Obls, &Obligation{Name: fmt.Sprintf("type %s#atomic_only:%d access sites go through sync/atomic", tn.Name(), nOK), Fn: res.Fn, Kind: "static", VC: vc, Props: ts.Props, Solver: "cfg", Status: "discharged"})
+		out = append(out, res)
+	}
+	return out
+}
+
+func allFuncs(w *World, pkg *ssa.Package) []*ssa.Function {
+	var fns []*ssa.Function
+	seen := map[*ssa.Function]bool{}
+	add := func(f *ssa.Function) {
+		if f == nil || seen[f] || len(f.Blocks) == 0 {
+			return
+		}
+		seen[f] = true
+		fns = append(fns, f)
+		for _, a := range f.AnonFuncs {
+			if !seen[a] {
+				seen[a] = true
+				fns = append(fns, a)
+			}
+		}
+	}
+	for _, m := range pkg.Members {
+		switch v := m.(type) {
+		case *ssa.Function:
+			add(v)
+		case *ssa.Type:
+			for _, t := range []types.Type{v.Type(), types.NewPointer(v.Type())} {
+				ms := w.prog.MethodSets.MethodSet(t)
+				for i := 0; i < ms.Len(); i++ {
+					f := w.prog.MethodValue(ms.At(i))
+					if f != nil && f.Synthetic == "" {
+						add(f)
+					}
+				}
+			}
+		}
+	}
+	sort.Slice(fns, func(i, j int) bool { return fns[i].String() < fns[j].String() })
+	return fns
+}
+
+// constructsBeforeSpawn: fn allocates an object of type t (composite literal) and the
+// instruction cannot be reached from any go statement of fn: the object is not shared yet.
+func constructsBeforeSpawn(fn *ssa.Function, in ssa.Instruction, t types.Type) bool {
+	builds := false
+	var gos []ssa.Instruction
+	for _, b := range fn.Blocks {
+		for _, i := range b.Instrs {
+			if al, ok := i.(*ssa.Alloc); ok && al.Comment == "complit" && types.Identical(al.Type().(*types.Pointer).Elem(), t) {
+				builds = true
+			}
+			if g, ok := i.(*ssa.Go); ok {
+				gos = append(gos, g)
+			}
+		}
+	}
+	if !builds {
+		return false
+	}
+	for _, g := range gos {
+		// same block, later
+		after := false
+		for _, i := range g.Block().Instrs {
+			if i == g {
+				after = true
+			} else if after && i == in {
+				return false
+			}
+		}
+		seen := map[*ssa.BasicBlock]bool{}
+		stack := append([]*ssa.BasicBlock{}, g.Block().Succs...)
+		for len(stack) > 0 {
+			b := stack[len(stack)-1]
+			stack = stack[:len(stack)-1]
+			if seen[b] {
+				continue
+			}
+			seen[b] = true
+			if b == in.Block() {
+				return false
+			}
+			stack = append(stack, b.Succs...)
+		}
+	}
+	return true
 }
